@@ -982,7 +982,9 @@ func (self *_parser) parseRelationalExpression() ast.Expression {
 				Right:    self.parseShiftExpression(),
 			}
 		}
-		return left
+		// a private name is only an expression as the left operand of 'in'
+		self.error(left.Idx, "Unexpected private field")
+		return &ast.BadExpression{From: left.Idx, To: self.idx}
 	}
 	left := self.parseShiftExpression()
 
